@@ -78,6 +78,33 @@ ROW-WISE reading of table functions (class `RowFn`, added for C20; Generated/Exp
   reads as `""` (both falsy: the functions read here only test truthiness); `x in [a, b]` is a disjunction;
 * `2.0 ** row.log2` is the parameter `log2_pow2` (ratio space); `str(row.k).isdigit()` is the Boolean parameter
   `k_isdigit`; `logging.*` calls and docstrings are skipped.
+
+Typed reader (`TFn`, growth round: decision tables and row masks -- `Generated/ExprsTbl*.lean`)
+* parameters carry the Lean type the extractor declares for them (`String`, `Nat`, `Int`, `Bool`); the Lean signature is
+  exactly the declared list, in the declared order (so a renamed LOCAL never changes it);
+* `self.col` / `row.col` (a column of the table, one row at a time) is the parameter `col`; a call of a declared row-mask
+  method (`cnarr.chr_x_filter(g)`, `self.parx_filter(genome_build=g)`) is the Bool parameter of that name -- what was
+  passed to it is recorded in `<name>_calls` (the distinct call texts, sorted) and pinned by a theorem of its own;
+* `x is None` / `x is not None` for a declared optional parameter `x` is the Bool parameter `x_given`;
+* `s.lower()` is `String.toLower`; `a in [l1, l2]` is `a == l1 || a == l2`; `==`/`!=` are `BEq` on strings and numbers;
+  `and`/`or`/`not` and the elementwise `&`/`|`/`~` of boolean Series are `&&`/`||`/`!`; `<=` etc. are `decide (.. ≤ ..)`;
+  `//` on naturals is `Nat` division; `np.repeat(e, len(df))` is `e` (one row at a time);
+* `df["col"] = e` sets the column, `df.loc[mask, "col"] = e` is `col := if mask then e else col` -- later statements
+  override earlier ones in source order; `if c: ...` without a return merges every local / column as `if c then .. else ..`;
+  `return df` is the tuple of the declared result columns;
+* truthiness of a string parameter is `!= ""` (an absent option, `None`, is read as the empty string); `logging.*(..)`
+  statements are skipped;
+* `a, b = params.TABLE[key]["NAME"]` binds the Int parameters `a`, `b` (values of a table the constants extractor reads);
+  the `"NAME"`s are recorded in `<name>_lookups`.
+
+Scan loops (`scan_rows`, `Generated/ExprsScan.lean`)
+* in a per-row loop `for idx, row in enumerate(table)`, the statement
+  `for i, x in enumerate(xs): if COND: BODY; break` with `else: ELSE` is read as the recursion "at the first `x` (index `i`)
+  with COND the result is BODY, ELSE if there is none" over the list `xs` (a `Nat → List Rat → Rat` definition started at
+  index 0); the loop variable `i` enters BODY as a number; ELSE may not read it;
+* `if np.isnan(row.col): out[idx] = E; continue` is the separate definition `<name>_nan := E`;
+* a local bound to a call the extractor declares opaque (`ref_copies = _reference_copies_pure(..)`) is a parameter with the
+  declared canonical name; the call's arguments are recorded in `<name>_calls`.
 """
 from __future__ import annotations
 
@@ -1194,3 +1221,383 @@ def emit_rows(repo, o, specs):
             continue
         o.lines.append(text)
         o.info[lean] = {"params": [n for n, _ in spec["sig"]]}
+
+
+# ------------------------------------------------------------------------------------------------------------------
+# typed reader: decision tables and row masks (see the module docstring)
+
+class TFn:
+    def __init__(self, fn, types, result, table=None, columns=(), masks=(), optional=(), lookup_params=(),
+                 self_names=("self", "cnarr", "row")):
+        self.fn = fn
+        self.lookup_params = list(lookup_params)   # k-th table lookup binds its targets to these declared parameters
+        self.types = dict(types)          # declared parameters: name -> Lean type, in signature order
+        self.result = result              # Lean result type
+        self.table = table                # name of the local that holds the table (`df`)
+        self.columns = list(columns)      # result columns of `return df`
+        self.masks = set(masks)           # row-mask methods read as Bool parameters
+        self.optional = set(optional)     # parameters whose None-test becomes `<name>_given`
+        self.self_names = set(self_names)
+        self.calls = []                   # recorded `method(arg, ...)` texts
+        self.lookups = []                 # recorded table keys
+
+    def _param(self, name):
+        name = {"end": "end_"}.get(name, name)     # `end` is a Lean keyword
+        if name not in self.types:
+            raise Untranslatable(f"`{name}` is not a declared parameter")
+        return name, self.types[name]
+
+    def expr(self, e, st, want=None):
+        """-> (lean text, type)"""
+        if isinstance(e, ast.Constant):
+            v = e.value
+            if isinstance(v, bool):
+                return ("true" if v else "false"), "Bool"
+            if isinstance(v, int):
+                t = want if want in ("Nat", "Int") else "Nat"
+                return (f"({v} : {t})" if v >= 0 else f"(({v}) : Int)"), (t if v >= 0 else "Int")
+            if isinstance(v, str):
+                import json
+                return json.dumps(v), "String"
+            raise Untranslatable(f"constant {v!r}")
+        if isinstance(e, ast.Name):
+            if e.id in st["env"]:
+                return st["env"][e.id]
+            return self._param(e.id)
+        if isinstance(e, ast.Attribute) and isinstance(e.value, ast.Name) and e.value.id in self.self_names:
+            return self._param(e.attr)
+        if isinstance(e, ast.IfExp):
+            c = self.boolean(e.test, st)
+            a, ta = self.expr(e.body, st, want)
+            b, tb = self.expr(e.orelse, st, want)
+            if ta != tb:
+                raise Untranslatable("branches of different type: " + ast.unparse(e))
+            return f"(if {c} then {a} else {b})", ta
+        if isinstance(e, ast.BinOp):
+            if isinstance(e.op, (ast.BitAnd, ast.BitOr)):
+                a, b = self.boolean(e.left, st), self.boolean(e.right, st)
+                return f"({a} {'&&' if isinstance(e.op, ast.BitAnd) else '||'} {b})", "Bool"
+            a, ta = self.expr(e.left, st, want)
+            b, tb = self.expr(e.right, st, ta)
+            if ta != tb or ta not in ("Nat", "Int"):
+                raise Untranslatable("arithmetic on " + ta + "/" + tb + ": " + ast.unparse(e))
+            sym = {ast.Add: "+", ast.Sub: "-", ast.Mult: "*", ast.FloorDiv: "/"}.get(type(e.op))
+            if sym is None or (sym == "-" and ta == "Nat"):
+                raise Untranslatable(ast.unparse(e))
+            return f"({a} {sym} {b})", ta
+        if isinstance(e, (ast.BoolOp, ast.Compare)) or (isinstance(e, ast.UnaryOp) and isinstance(e.op, (ast.Not, ast.Invert))):
+            return self.boolean(e, st), "Bool"
+        if isinstance(e, ast.Call):
+            f = e.func
+            if isinstance(f, ast.Attribute) and f.attr == "lower" and not e.args:
+                x, t = self.expr(f.value, st)
+                if t != "String":
+                    raise Untranslatable(".lower() of a " + t)
+                return f"{x}.toLower", "String"
+            if isinstance(f, ast.Attribute) and isinstance(f.value, ast.Name) and f.value.id in self.self_names \
+                    and f.attr in self.masks:
+                self.calls.append(ast.unparse(e).split(".", 1)[1])
+                return self._param(f.attr)
+            if ast.unparse(f) in ("np.repeat", "numpy.repeat") and len(e.args) == 2:
+                return self.expr(e.args[0], st, want)
+            raise Untranslatable("call " + ast.unparse(e))
+        raise Untranslatable(ast.unparse(e))
+
+    def boolean(self, e, st):
+        if isinstance(e, ast.BoolOp):
+            op = " && " if isinstance(e.op, ast.And) else " || "
+            return "(" + op.join(self.boolean(v, st) for v in e.values) + ")"
+        if isinstance(e, ast.UnaryOp) and isinstance(e.op, (ast.Not, ast.Invert)):
+            return f"(!{self.boolean(e.operand, st)})"
+        if isinstance(e, ast.Compare):
+            parts, left = [], e.left
+            for op, right in zip(e.ops, e.comparators):
+                if isinstance(op, (ast.Is, ast.IsNot)) and isinstance(right, ast.Constant) and right.value is None \
+                        and isinstance(left, ast.Name) and left.id in self.optional:
+                    g, _ = self._param(left.id + "_given")
+                    parts.append(g if isinstance(op, ast.IsNot) else f"(!{g})")
+                elif isinstance(op, (ast.In, ast.NotIn)) and isinstance(right, (ast.List, ast.Tuple, ast.Set)) and right.elts:
+                    a, ta = self.expr(left, st)
+                    alts = []
+                    for el in right.elts:
+                        b, tb = self.expr(el, st, ta)
+                        if tb != ta:
+                            raise Untranslatable("membership across types: " + ast.unparse(e))
+                        alts.append(f"{a} == {b}")
+                    m = "(" + " || ".join(alts) + ")"
+                    parts.append(m if isinstance(op, ast.In) else f"(!{m})")
+                else:
+                    a, ta = self.expr(left, st)
+                    b, tb = self.expr(right, st, ta)
+                    if ta != tb:
+                        raise Untranslatable("comparison across types: " + ast.unparse(e))
+                    if isinstance(op, (ast.Eq, ast.NotEq)):
+                        parts.append(f"({a} {'==' if isinstance(op, ast.Eq) else '!='} {b})")
+                    else:
+                        sym = {ast.Lt: "<", ast.LtE: "≤", ast.Gt: ">", ast.GtE: "≥"}.get(type(op))
+                        if sym is None or ta not in ("Nat", "Int"):
+                            raise Untranslatable(ast.unparse(e))
+                        parts.append(f"decide ({a} {sym} {b})")
+                left = right
+            return parts[0] if len(parts) == 1 else "(" + " && ".join(parts) + ")"
+        x, t = self.expr(e, st)
+        if t == "String":
+            return f"({x} != \"\")"          # truthiness of a string (None is read as the empty string)
+        if t != "Bool":
+            raise Untranslatable("truthiness of a " + t + ": " + ast.unparse(e))
+        return x
+
+    def _merge(self, c, a, b):
+        out = {}
+        for k in a:
+            if k in b:
+                (x, tx), (y, ty) = a[k], b[k]
+                if tx != ty:
+                    raise Untranslatable(f"`{k}` has different types in the two branches")
+                out[k] = (x, tx) if x == y else (f"(if {c} then {x} else {y})", tx)
+        return out
+
+    def run(self, stmts, st):
+        """-> result text if a return was reached, else None (state updated in place)"""
+        for s in stmts:
+            if isinstance(s, ast.Expr) and isinstance(s.value, ast.Constant):
+                continue
+            if isinstance(s, ast.Assert):
+                continue
+            if isinstance(s, ast.Expr) and isinstance(s.value, ast.Call) and ast.unparse(s.value.func).startswith("logging."):
+                continue
+            if isinstance(s, ast.Return):
+                if isinstance(s.value, ast.Name) and s.value.id == self.table:
+                    vals = []
+                    for col in self.columns:
+                        if col not in st["cols"]:
+                            raise Untranslatable(f"column `{col}` never set")
+                        vals.append(st["cols"][col][0])
+                    return "(" + ", ".join(vals) + ")"
+                return self.expr(s.value, st)[0]
+            if isinstance(s, ast.Assign) and len(s.targets) == 1:
+                t = s.targets[0]
+                if isinstance(t, ast.Name):
+                    if t.id == self.table:
+                        continue
+                    st["env"][t.id] = self.expr(s.value, st)
+                    continue
+                if isinstance(t, ast.Tuple) and all(isinstance(x, ast.Name) for x in t.elts) \
+                        and isinstance(s.value, ast.Subscript) and isinstance(s.value.slice, ast.Constant) \
+                        and isinstance(s.value.slice.value, str):
+                    k = len(self.lookups)
+                    if k >= len(self.lookup_params) or len(self.lookup_params[k]) != len(t.elts):
+                        raise Untranslatable("table lookup not declared: " + ast.unparse(s))
+                    inner = s.value.value
+                    if not (isinstance(inner, ast.Subscript) and isinstance(inner.value, (ast.Attribute, ast.Name))):
+                        raise Untranslatable("table lookup " + ast.unparse(s.value))
+                    tname = inner.value.attr if isinstance(inner.value, ast.Attribute) else inner.value.id
+                    self.lookups.append(f"{tname}[{self.expr(inner.slice, st)[0]}][{s.value.slice.value}]")
+                    for x, canon in zip(t.elts, self.lookup_params[k]):
+                        st["env"][x.id] = self._param(canon)
+                    continue
+                if isinstance(t, ast.Subscript) and isinstance(t.value, ast.Name) and t.value.id == self.table \
+                        and isinstance(t.slice, ast.Constant) and isinstance(t.slice.value, str):
+                    st["cols"][t.slice.value] = self.expr(s.value, st, "Nat")
+                    continue
+                if isinstance(t, ast.Subscript) and isinstance(t.value, ast.Attribute) and t.value.attr == "loc" \
+                        and isinstance(t.value.value, ast.Name) and t.value.value.id == self.table \
+                        and isinstance(t.slice, ast.Tuple) and len(t.slice.elts) == 2 \
+                        and isinstance(t.slice.elts[1], ast.Constant) and isinstance(t.slice.elts[1].value, str):
+                    col = t.slice.elts[1].value
+                    if col not in st["cols"]:
+                        raise Untranslatable(f"masked assignment to the unset column `{col}`")
+                    mask = self.boolean(t.slice.elts[0], st)
+                    old, told = st["cols"][col]
+                    new, tnew = self.expr(s.value, st, told)
+                    if tnew != told:
+                        raise Untranslatable(f"column `{col}` changes type")
+                    st["cols"][col] = (f"(if {mask} then {new} else {old})", told)
+                    continue
+                raise Untranslatable("assignment to " + ast.unparse(t))
+            if isinstance(s, ast.AugAssign) and isinstance(s.target, ast.Name) and isinstance(s.op, (ast.BitAnd, ast.BitOr)):
+                cur, tc = self.expr(s.target, st)
+                if tc != "Bool":
+                    raise Untranslatable(ast.unparse(s))
+                v = self.boolean(s.value, st)
+                st["env"][s.target.id] = (f"({cur} {'&&' if isinstance(s.op, ast.BitAnd) else '||'} {v})", "Bool")
+                continue
+            if isinstance(s, ast.If):
+                c = self.boolean(s.test, st)
+                a = {"env": dict(st["env"]), "cols": dict(st["cols"])}
+                b = {"env": dict(st["env"]), "cols": dict(st["cols"])}
+                if self.run(list(s.body), a) is not None or self.run(list(s.orelse), b) is not None:
+                    raise Untranslatable("return inside a branch")
+                st["env"] = self._merge(c, a["env"], b["env"])
+                st["cols"] = self._merge(c, a["cols"], b["cols"])
+                continue
+            raise Untranslatable(type(s).__name__ + ": " + ast.unparse(s)[:80])
+        return None
+
+    def translate(self, lean_name, comment=None):
+        body = self.run(list(self.fn.body), {"env": {}, "cols": {}})
+        if body is None:
+            raise Untranslatable("function falls off its end without a return")
+        sig = " ".join(f"({n} : {t})" for n, t in self.types.items())
+        doc = f"/-- {comment} -/\n" if comment else ""
+        text = doc + f"def {lean_name} {sig} : {self.result} :=\n  {body}"
+        import json
+        lst = lambda xs: "[" + ", ".join(json.dumps(x) for x in xs) + "]"
+        if self.masks:
+            text += f"\n/-- what `{lean_name}` passes to the row masks it reads as parameters -/\n" \
+                    f"def {lean_name}_calls : List String := {lst(sorted(set(self.calls)))}"
+        if self.lookups:
+            text += f"\n/-- the table keys `{lean_name}` looks its Int parameters up under -/\n" \
+                    f"def {lean_name}_lookups : List String := {lst(self.lookups)}"
+        return text
+
+
+def emit_typed(repo, o, specs):
+    """specs: (file, class or None, function, lean name, TFn kwargs, comment)"""
+    import os
+    from .translate import parse, find_func
+    for path, cls, fname, lean, kw, comment in specs:
+        try:
+            tree, _src = parse(os.path.join(repo, path))
+            fn = find_func(tree, fname, cls)
+            text = TFn(fn, **kw).translate(lean, comment)
+        except (Untranslatable, KeyError, OSError, SyntaxError) as e:
+            o.lines.append(f"-- NOT TRANSLATED: {path}:{fname}: {type(e).__name__}: {str(e)[:200]}".replace("\n", " "))
+            o.info[lean] = {"error": str(e)[:200]}
+            continue
+        o.lines.append(text)
+        o.info[lean] = {"ok": True}
+
+
+# ------------------------------------------------------------------------------------------------------------------
+# scan loops (see the module docstring)
+
+def scan_rows(fn, callees, lean_name, params, opaque, comment=None):
+    """`fn` fills an array row by row; returns the Lean text of `<lean_name>_nan`, `<lean_name>_scan`, `<lean_name>_row`,
+    `<lean_name>_calls`.  `params`: the Lean (Rat) parameters of the scan in signature order; `opaque`: callee name ->
+    canonical parameter name of the local it is assigned to."""
+    import copy
+    import json
+    outer = [s for s in fn.body if isinstance(s, ast.For)]
+    if len(outer) != 1:
+        raise Untranslatable("expected exactly one per-row loop")
+    outer = outer[0]
+    it = outer.iter
+    if not (isinstance(it, ast.Call) and ast.unparse(it.func) == "enumerate" and isinstance(outer.target, ast.Tuple)
+            and len(outer.target.elts) == 2 and all(isinstance(x, ast.Name) for x in outer.target.elts)):
+        raise Untranslatable("per-row loop is not `for idx, row in enumerate(table)`")
+    idx, row = (x.id for x in outer.target.elts)
+
+    class RowAttr(ast.NodeTransformer):
+        def visit_Attribute(self, node):
+            if isinstance(node.value, ast.Name) and node.value.id == row:
+                return ast.copy_location(ast.Name(id=node.attr, ctx=node.ctx), node)
+            return self.generic_visit(node)
+    body = [RowAttr().visit(copy.deepcopy(s)) for s in outer.body]
+
+    def is_store(s, name=None):
+        """`out[idx] = <name or expr>`"""
+        return (isinstance(s, ast.Assign) and len(s.targets) == 1 and isinstance(s.targets[0], ast.Subscript)
+                and isinstance(s.targets[0].slice, ast.Name) and s.targets[0].slice.id == idx)
+
+    tr = Fn(fn, callees={k: v for k, v in callees.items() if k not in opaque})
+    env, calls, nan_text, scan, result_var = {}, [], None, None, None
+    for s in body:
+        if isinstance(s, ast.Expr):
+            continue  # logging
+        if isinstance(s, ast.Assign) and len(s.targets) == 1 and isinstance(s.targets[0], ast.Name):
+            name = s.targets[0].id
+            if isinstance(s.value, ast.Call) and isinstance(s.value.func, ast.Name) and s.value.func.id in opaque:
+                calls.append(ast.unparse(s.value))
+                env[name] = tr.param(opaque[s.value.func.id])
+                continue
+            env[name] = tr.expr(s.value, env)
+            continue
+        if isinstance(s, ast.If) and isinstance(s.test, ast.Call) and ast.unparse(s.test.func) in ("np.isnan", "math.isnan") \
+                and not s.orelse and scan is None:
+            inner = [x for x in s.body if not isinstance(x, ast.Expr)]
+            if len(inner) == 2 and is_store(inner[0]) and isinstance(inner[1], ast.Continue):
+                nan_text = (ast.unparse(s.test.args[0]), tr.expr(inner[0].value, env))
+                continue
+            raise Untranslatable("NaN branch is not `out[idx] = E; continue`")
+        if isinstance(s, ast.For) and scan is None:
+            t = s.target
+            if not (isinstance(s.iter, ast.Call) and ast.unparse(s.iter.func) == "enumerate" and len(s.iter.args) == 1
+                    and isinstance(s.iter.args[0], ast.Name) and isinstance(t, ast.Tuple) and len(t.elts) == 2
+                    and all(isinstance(x, ast.Name) for x in t.elts)):
+                raise Untranslatable("scan is not `for i, x in enumerate(xs)`")
+            i_name, x_name = (x.id for x in t.elts)
+            if len(s.body) != 1 or not isinstance(s.body[0], ast.If) or s.body[0].orelse \
+                    or not isinstance(s.body[0].body[-1], ast.Break):
+                raise Untranslatable("scan body is not `if COND: ...; break`")
+            hit = s.body[0]
+            e_hit = dict(env)
+            e_hit[i_name] = "(cnum : Rat)"
+            e_hit[x_name] = "thresh"
+            cond = tr.cond(hit.test, e_hit)
+            ret = ast.Return(value=ast.Name(id=i_name, ctx=ast.Load()))
+            body_text = tr.block(list(hit.body[:-1]) + [ret], e_hit)
+            if not s.orelse:
+                raise Untranslatable("scan without an else branch")
+            for n in ast.walk(ast.Module(body=list(s.orelse), type_ignores=[])):
+                if isinstance(n, ast.Name) and isinstance(n.ctx, ast.Load) and n.id in (i_name, x_name):
+                    raise Untranslatable("the else branch reads the loop variable")
+            else_text = tr.block(list(s.orelse) + [ret], dict(env))
+            scan = (s.iter.args[0].id, cond, body_text, else_text)
+            result_var = i_name
+            continue
+        if is_store(s) and scan is not None:
+            if not (isinstance(s.value, ast.Name) and s.value.id == result_var):
+                raise Untranslatable("the row result is not the scan variable")
+            continue
+        raise Untranslatable(type(s).__name__ + ": " + ast.unparse(s)[:80])
+    if scan is None or nan_text is None:
+        raise Untranslatable("no scan loop / NaN branch found")
+    extra = [p for p in tr.params if p not in params]
+    if extra:
+        raise Untranslatable("undeclared parameters " + ", ".join(extra))
+    ps = " ".join(params)
+    xs, cond, body_text, else_text = scan
+    doc = f"/-- {comment}" if comment else "/-- "
+    return "\n".join([
+        f"{doc}: a row whose `{nan_text[0]}` is NaN -/",
+        f"def {lean_name}_nan ({ps} : Rat) : Rat :=\n  {nan_text[1]}",
+        f"{doc}: the scan over `{xs}` from index `cnum` on -/",
+        f"def {lean_name}_scan ({ps} : Rat) : Nat → List Rat → Rat",
+        f"  | _, [] => {else_text}",
+        f"  | cnum, thresh :: rest => if {cond} then {body_text} else {lean_name}_scan {ps} (cnum + 1) rest",
+        f"{doc}: one row -/",
+        f"def {lean_name}_row ({ps} : Rat) ({xs} : List Rat) : Rat :=\n  {lean_name}_scan {ps} 0 {xs}",
+        f"/-- the opaque calls whose results `{lean_name}` reads as parameters -/",
+        f"def {lean_name}_calls : List String := [" + ", ".join(json.dumps(c) for c in calls) + "]",
+    ])
+
+
+def guard_condition(fn, exc_name, rename_attr_of=("args",)):
+    """the test of the first `if TEST: raise <exc_name>(...)` of `fn`, as a Lean Prop over Rat parameters (`args.x` is
+    the parameter `x`) -> (text, params)"""
+    import copy
+
+    class A(ast.NodeTransformer):
+        def visit_Attribute(self, node):
+            if isinstance(node.value, ast.Name) and node.value.id in rename_attr_of:
+                return ast.copy_location(ast.Name(id=node.attr, ctx=node.ctx), node)
+            return self.generic_visit(node)
+    tr, env = Fn(fn), {}
+    for s in fn.body:
+        if isinstance(s, ast.Assign) and len(s.targets) == 1 and isinstance(s.targets[0], ast.Name):
+            # a plain local in front of the guard (an alias of an option) is read through
+            try:
+                probe = Fn(fn)
+                val = probe.expr(A().visit(copy.deepcopy(s.value)), dict(env))
+            except Untranslatable:
+                continue
+            for q in probe.params:
+                tr.param(q)
+            env[s.targets[0].id] = val
+            continue
+        if isinstance(s, ast.If) and not s.orelse and len(s.body) == 1 and isinstance(s.body[0], ast.Raise) \
+                and exc_name in ast.unparse(s.body[0]):
+            tr.params = []
+            return tr.cond(A().visit(copy.deepcopy(s.test)), env), list(tr.params)
+    raise Untranslatable(f"no `if ...: raise {exc_name}` guard")
